@@ -316,6 +316,57 @@ pub fn lengths_for(max: usize, tier: Tier) -> (Vec<usize>, Vec<usize>) {
     (l, f)
 }
 
+/// One shredder instance used for a whole sequence of slices (as a node's shredder pool does):
+/// every ordered pair of sizes from a small menu (long then short included), shred with the shared
+/// instance, restore with the same instance from two 32-subsets.
+fn run_instance_reuse<S: Shredder>(name: &'static str, report: &Report, st: &Stats) {
+    let sk = SecretKey::new(&mut StdRng::seed_from_u64(seed() ^ 0x12));
+    let max = S::MAX_DATA_SIZE - overhead(true);
+    let sizes: Vec<usize> = vec![0, 1, 17, 64, 1000, 2000, max / 2, max];
+    for a in &sizes {
+        for b in &sizes {
+            let mut shredder = S::default();
+            for (step, len) in [a, b, a].into_iter().enumerate() {
+                let slice = mk_slice(9, step, step == 2, true, *len);
+                let replay = json!({"shredder": name, "oracle": "instance-reuse", "sizes_in_sequence": [a, b, a], "step": step});
+                st.evals.fetch_add(1, Ordering::Relaxed);
+                st.nontrivial.fetch_add(1, Ordering::Relaxed);
+                let shreds = match catch(std::panic::AssertUnwindSafe(|| shredder.shred(&slice, &sk))) {
+                    Ok(Ok(s)) => s,
+                    Ok(Err(e)) => {
+                        report.violation(format!("C11:fitting-slice-refused:{name}:instance-reuse"), format!("slice {step} of the sequence {a},{b},{a} refused: {e:?}"), replay);
+                        break;
+                    }
+                    Err(p) => {
+                        report.violation(format!("C11:shred-panics:{name}:instance-reuse"), p, replay);
+                        break;
+                    }
+                };
+                for keep in [0..32usize, 32..64] {
+                    let mut arr: [Option<ValidatedShred>; TOTAL_SHREDS] = [const { None }; TOTAL_SHREDS];
+                    for i in keep.clone() {
+                        arr[i] = Some(shreds[i].clone());
+                    }
+                    match catch(std::panic::AssertUnwindSafe(|| shredder.deshred(&mut arr))) {
+                        Ok(Ok(rec)) => {
+                            let got: &Slice = &rec;
+                            if got != &slice {
+                                report.violation(format!("C11:restored-slice-differs:{name}:instance-reuse"), format!("sequence {a},{b},{a}, slice {step}: restored slice differs"), replay.clone());
+                            }
+                        }
+                        Ok(Err(e)) => report.violation(
+                            format!("C11:enough-shreds-not-restored:{name}:instance-reuse"),
+                            format!("a shredder instance that shredded slices of {a}, {b}, {a} bytes in sequence: slice {step} ({len} bytes) does not restore from 32 shreds: {e:?}"),
+                            replay.clone(),
+                        ),
+                        Err(p) => report.violation(format!("C11:deshred-panics:{name}:instance-reuse"), p, replay.clone()),
+                    }
+                }
+            }
+        }
+    }
+}
+
 pub fn run(tier: Tier) -> i32 {
     let report = Report::new("C11", tier, "exploration");
     let st = Stats {
@@ -330,6 +381,10 @@ pub fn run(tier: Tier) -> i32 {
     let (l2, f2) = lengths_for(AontShredder::MAX_DATA_SIZE, tier);
     run_shredder::<AontShredder>("aont", &l2, &f2, &report, &st);
     run_shredder::<PetsShredder>("pets", &l2, &f2, &report, &st);
+    run_instance_reuse::<RegularShredder>("regular", &report, &st);
+    run_instance_reuse::<CodingOnlyShredder>("coding-only", &report, &st);
+    run_instance_reuse::<AontShredder>("aont", &report, &st);
+    run_instance_reuse::<PetsShredder>("pets", &report, &st);
     let err_lengths: Vec<usize> = f2.iter().copied().chain((60..4000).step_by(tier.pick(397, 41))).collect();
     run_error_paths::<RegularShredder, AontShredder>("regular->aont", &err_lengths, &report, &st);
     run_error_paths::<AontShredder, RegularShredder>("aont->regular", &err_lengths, &report, &st);
@@ -340,7 +395,7 @@ pub fn run(tier: Tier) -> i32 {
     let cov = json!({
         "evaluations": st.evals.load(Ordering::Relaxed),
         "distinct_nontrivial": st.nontrivial.load(Ordering::Relaxed),
-        "rule": "for each of the four shredders, each serialized payload length in the list (thorough: every length 0..=max+64; quick: every 61st plus all boundary regions), with and without parent: shred, then for each subset of the base family (and of the full structured family - all 33 contiguous windows, all k-low/32-k-high splits, every prefix size 0..64, each single index missing, 64 cyclic 32-runs - on the covering lengths) deshred in place and compare the restored slice field by field and every regenerated shred byte-for-byte with the leader's; additionally error paths with >= 32 shreds (shreds of one shredder decoded by another, shreds mixed from two signed slices of different or equal size) where any failure must leave the supplied array untouched; non-trivial = every (shredder, length, parent, subset) deshred call and every oversize refusal; all distinct by construction",
+        "rule": "for each of the four shredders, each serialized payload length in the list (thorough: every length 0..=max+64; quick: every 61st plus all boundary regions), with and without parent: shred, then for each subset of the base family (and of the full structured family - all 33 contiguous windows, all k-low/32-k-high splits, every prefix size 0..64, each single index missing, 64 cyclic 32-runs - on the covering lengths) deshred in place and compare the restored slice field by field and every regenerated shred byte-for-byte with the leader's; additionally one shredder instance reused for every ordered pair of sizes from {0, 1, 17, 64, 1000, 2000, max/2, max} (a, b, a in sequence; each slice restored from two 32-subsets), and error paths with >= 32 shreds (shreds of one shredder decoded by another, shreds mixed from two signed slices of different or equal size) where any failure must leave the supplied array untouched; non-trivial = every (shredder, length, parent, subset) deshred call and every oversize refusal; all distinct by construction",
         "exhaustive": tier == Tier::Thorough,
         "payload_lengths": l.len(),
         "oversize_refused": st.oversize_refused.load(Ordering::Relaxed),
